@@ -34,6 +34,13 @@ const (
 	vBadChar = "verifier+2.aaaaaaaaaabbbbbbbbbbccccccccccdd"
 )
 
+// 129 characters: one more than allowed
+var vLong = v0 + v0 + "aaaaaaaaaaaaaaaaaaaaaaaaaaaaa"
+
+// bound of the symbolic challenge / verifier strings. The solvers need > 10 s per query for
+// strings of 129+ characters, so the "too long" class is exercised with the concrete vLong.
+const symLen = 64
+
 var unreservedOnly = regexp.MustCompile(`^[A-Za-z0-9\-._~]*$`)
 
 func s256(v string) string {
@@ -96,7 +103,7 @@ func (s *st) authorize(symbolicChallenge bool) bool {
 		zz.Cover("authz:challenge=v0", true)
 	case 3:
 		if symbolicChallenge {
-			s.challenge = zz.String("challenge", 130)
+			s.challenge = zz.String("challenge", symLen)
 			s.symChal = true
 			zz.Assume(len(s.challenge) > 0)
 			zz.Cover("authz:challenge-symbolic", true)
@@ -157,9 +164,9 @@ func (s *st) attempt(i int, symbolicVerifier bool) bool {
 	}
 	var v string
 	absent := false
-	nKinds := 7
+	nKinds := 8
 	if symbolicVerifier {
-		nKinds = 8
+		nKinds = 9
 	}
 	switch zz.Choice("verifier", nKinds) {
 	case 0:
@@ -180,10 +187,12 @@ func (s *st) attempt(i int, symbolicVerifier bool) bool {
 			absent = true
 		}
 	case 7:
+		v = vLong
+	case 8:
 		// a free challenge and a free verifier related by the hash cannot be replayed (the hash is an
 		// uninterpreted function): S256 is exercised with challenges the harness computed itself
 		zz.Assume(!(s.symChal && s.method == "S256"))
-		v = zz.String("verifier", 130)
+		v = zz.String("verifier", symLen)
 		zz.Assume(len(v) > 0)
 	}
 	if !absent {
@@ -249,7 +258,7 @@ func ZZ_C03_attempts() {
 	}
 }
 
-// ZZ_C03_symbolic: symbolic challenge (plain) and symbolic verifier (zz.String, <= 130 chars),
+// ZZ_C03_symbolic: symbolic challenge (plain) and symbolic verifier (zz.String, <= 64 chars),
 // k = 1 (quick) / 2 (thorough).
 func ZZ_C03_symbolic() {
 	if zz.Thorough() {
